@@ -8,8 +8,6 @@ from vlib import render as RR
 
 ID = "C03"
 PROP_FILE = "Props/C03.v"
-THEOREMS = ["C03_canonical", "C03_display", "C03_as_ref", "C03_into_static", "C03_to_string", "C03_variant_names",
-            "C03_longest_unique", "C03_nonvacuous"]
 RULE = ("definitions: systematic kind x {no attr, to_string, every ORDER of 1-3 serialize literals with pairwise distinct byte "
         "lengths (so `last` differs from `longest` in most), both} x prefix {none, empty, ASCII, non-ASCII} x serialize_all x "
         "const_into_str on/off, plus seeded random enums; each deriving Display + AsRefStr + IntoStaticStr + VariantNames, or "
